@@ -1,23 +1,61 @@
 package props
 
 import (
+	"fmt"
+	"strings"
+
 	"bifrostverify/an"
 
 	"golang.org/x/tools/go/ssa"
 )
 
-// signBody extracts (operands, separator) of the single bytes.Join call of fn.
-func signBody(c *an.Check, fn *ssa.Function) ([]ssa.Value, string, *ssa.Call) {
-	if fn == nil {
-		return nil, "", nil
+// bodyExpr describes how the bytes handed to Sign / Verify are built: one bytes.Join of a literal operand list, or one
+// call of a repository helper (then both sides must call the same helper, which must be a pure function).
+type bodyExpr struct {
+	kind   string // "join" | "call"
+	sep    string
+	callee *ssa.Function
+	ops    []ssa.Value
+	val    ssa.Value
+}
+
+func bodyOf(c *an.Check, v ssa.Value) *bodyExpr {
+	call, ok := v.(*ssa.Call)
+	if !ok {
+		return nil
 	}
-	js := an.Calls(fn, an.X("bytes", "", "Join"))
-	if len(js) != 1 {
-		return nil, "", nil
+	if an.IsCallTo(call, an.X("bytes", "", "Join")) {
+		sep, _ := an.StrConstOf(call.Call.Args[1])
+		return &bodyExpr{kind: "join", sep: sep, ops: c.P.SliceLitElems(call.Call.Args[0]), val: v}
 	}
-	el := c.P.SliceLitElems(js[0].Call.Args[0])
-	sep, _ := an.StrConstOf(js[0].Call.Args[1])
-	return el, sep, js[0]
+	if f := call.Call.StaticCallee(); f != nil && f.Pkg != nil && strings.HasPrefix(f.Pkg.Pkg.Path(), an.Mod) && len(f.Blocks) > 0 {
+		return &bodyExpr{kind: "call", callee: f, ops: call.Call.Args, val: v}
+	}
+	return nil
+}
+
+// peel strips conversions and single-argument calls of non-repository functions (strconv.Itoa, string(...)) from v and
+// returns the value underneath together with a description of what was stripped.
+func peel(v ssa.Value) (ssa.Value, string) {
+	wrap := ""
+	for {
+		switch x := v.(type) {
+		case *ssa.Convert:
+			wrap += "conv<" + x.Type().String() + ">|"
+			v = x.X
+			continue
+		case *ssa.ChangeType:
+			v = x.X
+			continue
+		case *ssa.Call:
+			if f := x.Call.StaticCallee(); f != nil && len(x.Call.Args) == 1 && (f.Pkg == nil || !strings.HasPrefix(f.Pkg.Pkg.Path(), an.Mod)) {
+				wrap += "call<" + f.String() + ">|"
+				v = x.Call.Args[0]
+				continue
+			}
+		}
+		return v, wrap
+	}
 }
 
 func c02(c *an.Check) {
@@ -28,61 +66,117 @@ func c02(c *an.Check) {
 
 	sign := p.Func("peer", "", "NewSignatureWithHashedData")
 	ver := p.Func("peer", "Signature", "VerifyWithPublic")
-	so, ssep, sj := signBody(c, sign)
-	vo, vsep, vj := signBody(c, ver)
-	if sj == nil || vj == nil || len(so) != 3 || len(vo) != 3 {
-		c.Undecided("MIRROR", "peer sign body construction", sign, "unresolved anchor: expected one bytes.Join of a 3-element literal in both NewSignatureWithHashedData and VerifyWithPublic")
+	var sb, vb *bodyExpr
+	if sign != nil {
+		if sc := an.Calls(sign, an.R("crypto", "PrivKey", "Sign")); len(sc) == 1 {
+			sb = bodyOf(c, sc[0].Call.Args[0])
+		}
+	}
+	if ver != nil {
+		if kv := an.Calls(ver, fnPubKeyVerify); len(kv) == 1 {
+			vb = bodyOf(c, kv[0].Call.Args[0])
+		}
+	}
+	if sb == nil || vb == nil || len(sb.ops) != 3 || len(vb.ops) != 3 {
+		c.Undecided("MIRROR", "peer sign body construction", sign, "unresolved anchor: expected the bytes given to Sign / Verify to be one bytes.Join of a 3-element literal, or one call of a shared helper on three operands, in both NewSignatureWithHashedData and VerifyWithPublic")
 		return
 	}
-	itoa := an.X("strconv", "", "Itoa")
-	htOfItoa := func(v ssa.Value) ssa.Value {
-		call := an.ResultCallTo(an.ConvOf(v), itoa)
-		if call == nil {
-			return nil
+	// sign side: roles of the three operands
+	sRole, sWrap := make([]string, 3), make([]string, 3)
+	for i, o := range sb.ops {
+		core, w := peel(o)
+		sWrap[i] = w
+		switch {
+		case an.IsParam(core, 0):
+			sRole[i] = "context"
+		case an.IsParam(core, 2):
+			sRole[i] = "hashType"
+		case an.IsParam(core, 3):
+			sRole[i] = "digest"
 		}
-		return an.ConvOf(call.Call.Args[0])
 	}
-	// sign side
-	sHT := htOfItoa(so[1])
-	okS := an.IsParam(an.ConvOf(so[0]), 0) && sHT != nil && an.IsParam(sHT, 2) && an.IsParam(so[2], 3)
+	distinct := func(r []string) bool {
+		seen := map[string]bool{}
+		for _, x := range r {
+			if x == "" || seen[x] {
+				return false
+			}
+			seen[x] = true
+		}
+		return true
+	}
+	okS := distinct(sRole)
 	c.Require(okS, "MIRROR", "peer.NewSignatureWithHashedData signs context‖itoa(hashType)‖digest", sign, "", 3,
 		"operands = ([]byte(encContext), []byte(Itoa(int(hashType))), hashData)", "the signed bytes are not built from (context parameter, decimal hash type parameter, digest parameter)")
 	// verify side
-	vHT := htOfItoa(vo[1])
 	st := p.NewState(ver)
-	okV := an.IsParam(an.ConvOf(vo[0]), 1) && vHT != nil && getterOn(st, vHT, "peer", "Signature", "GetHashType")
+	vRole, vWrap := make([]string, 3), make([]string, 3)
+	var vHT ssa.Value
 	var sumCall *ssa.Call
-	if okV {
-		// digest operand: field Hash of the *hash.Hash returned by hash.Sum(ht, data)
-		okV = false
-		if u, ok := vo[2].(*ssa.UnOp); ok {
-			if fa, ok := u.X.(*ssa.FieldAddr); ok && an.FieldOfAddr(fa) != nil && an.FieldOfAddr(fa).Name() == "Hash" {
-				sumCall = an.ResultCallTo(fa.X, an.R("hash", "", "Sum"))
+	for i, o := range vb.ops {
+		core, w := peel(o)
+		vWrap[i] = w
+		switch {
+		case an.IsParam(core, 1):
+			vRole[i] = "context"
+		case getterOn(st, core, "peer", "Signature", "GetHashType"):
+			vRole[i] = "hashType"
+			vHT = core
+		default:
+			// digest operand: field Hash of the *hash.Hash returned by hash.Sum(ht, data)
+			if u, ok := core.(*ssa.UnOp); ok {
+				if fa, ok := u.X.(*ssa.FieldAddr); ok && an.FieldOfAddr(fa) != nil && an.FieldOfAddr(fa).Name() == "Hash" {
+					sumCall = an.ResultCallTo(fa.X, an.R("hash", "", "Sum"))
+				}
+			}
+			if call := an.ResultCallTo(core, an.R("hash", "Hash", "GetHash")); call != nil {
+				sumCall = an.ResultCallTo(call.Call.Args[0], an.R("hash", "", "Sum"))
+			}
+			if sumCall != nil {
+				vRole[i] = "digest"
 			}
 		}
-		if call := an.ResultCallTo(vo[2], an.R("hash", "Hash", "GetHash")); call != nil {
-			sumCall = an.ResultCallTo(call.Call.Args[0], an.R("hash", "", "Sum"))
-		}
-		if sumCall != nil {
-			okV = p.Key(sumCall.Call.Args[0]) == p.Key(vHT) || (getterOn(st, sumCall.Call.Args[0], "peer", "Signature", "GetHashType"))
-			okV = okV && an.IsParam(sumCall.Call.Args[1], 3)
-			// both uses must be the same SSA value (one read of the hash type)
-			okV = okV && sumCall.Call.Args[0] == vHT
-		}
+	}
+	okV := distinct(vRole)
+	if okV {
+		// the digest is of the data parameter under the very hash type that is also signed (one read of the hash type)
+		okV = sumCall.Call.Args[0] == vHT && an.IsParam(sumCall.Call.Args[1], 3)
 	}
 	c.Require(okV, "MIRROR", "peer.Signature.VerifyWithPublic verifies context‖itoa(hashType)‖H_hashType(data)", ver, "", 3,
 		"operands = ([]byte(encContext), []byte(Itoa(int(ht))), hash.Sum(ht,data).Hash) with one ht", "the verified bytes are not (context parameter, decimal of the signature's hash type, digest of the data parameter under that same hash type)")
-	c.Require(ssep == vsep && ssep != "", "MIRROR", "peer sign/verify use the same separator", ver, "", 2, "separator constants are equal", "sign and verify join with different separators")
+	same, whyM := sb.kind == vb.kind, "sign and verify build the body in different ways"
+	if same {
+		switch sb.kind {
+		case "join":
+			same, whyM = sb.sep == vb.sep && sb.sep != "", "sign and verify join with different separators"
+		case "call":
+			same, whyM = sb.callee == vb.callee, "sign and verify build the body with different helpers"
+			if same {
+				if bad, _ := impureIn(p, repoCallTree(p, sb.callee)); bad != "" {
+					same, whyM = false, "the shared body helper is not a pure function: "+bad
+				}
+			}
+		}
+	}
+	if same {
+		for i := range sRole {
+			if sRole[i] != vRole[i] || sWrap[i] != vWrap[i] {
+				same, whyM = false, fmt.Sprintf("operand %d differs between the two sides: sign has %s%s, verify has %s%s", i, sWrap[i], sRole[i], vWrap[i], vRole[i])
+			}
+		}
+	}
+	c.Require(same, "MIRROR", "peer sign/verify use the same separator", ver, "", 2, "same construction (separator constant or shared pure helper), same operand order and encoding", whyM)
+	vj, sj := vb.val, sb.val
 	// the key's Verify is called on (that body, the signature's own bytes)
 	if ver != nil {
 		kv := an.Calls(ver, fnPubKeyVerify)
-		ok := len(kv) == 1 && kv[0].Call.Args[0] == ssa.Value(vj) && getterOn(st, kv[0].Call.Args[1], "peer", "Signature", "GetSigData") && an.IsParam(kv[0].Call.Value, 2)
+		ok := len(kv) == 1 && kv[0].Call.Args[0] == vj && getterOn(st, kv[0].Call.Args[1], "peer", "Signature", "GetSigData") && an.IsParam(kv[0].Call.Value, 2)
 		c.Require(ok, "PROVENANCE", "peer.Signature.VerifyWithPublic calls pubKey.Verify(body, own sig bytes)", ver, "", len(kv), "Verify(pubKey param; joined body, s.GetSigData())", "PubKey.Verify is not applied to (the joined body, the signature's own bytes) on the key parameter")
 	}
 	// sign: the body is what gets signed with the private key parameter, and the stored hash type is the signed one
 	if sign != nil {
 		sc := an.Calls(sign, an.R("crypto", "PrivKey", "Sign"))
-		ok := len(sc) == 1 && sc[0].Call.Args[0] == ssa.Value(sj) && an.IsParam(sc[0].Call.Value, 1)
+		ok := len(sc) == 1 && sc[0].Call.Args[0] == sj && an.IsParam(sc[0].Call.Value, 1)
 		c.Require(ok, "PROVENANCE", "peer.NewSignatureWithHashedData signs the joined body with the key parameter", sign, "", len(sc), "privKey.Sign(body)", "the joined body is not what is signed with the private key parameter")
 		htf := p.FieldVar(an.FieldRef{Pkg: "peer", Type: "Signature", Field: "HashType"})
 		sdf := p.FieldVar(an.FieldRef{Pkg: "peer", Type: "Signature", Field: "SigData"})
